@@ -398,6 +398,8 @@ def run(ctx):
     n = ctx.n(960, 8000)
     strat = st.tuples(st.one_of(gen_cfg.model_and_spec(),
                                 gen_cfg.model_and_spec(want_mc=True),
+                                gen_cfg.model_and_spec(force=['dict_names']),
+                                gen_cfg.model_and_spec(force=['dict_names'], want_mc=True),
                                 gen_cfg.model_and_spec(want_mixed=True, force=['many_ports'])),
                       st.integers(0, 1000))
     seen = set()
